@@ -54,6 +54,25 @@ def variant_source_class():
     return _VARIANT_CLS[0]
 
 
+_SPAN_CLS: list = []
+
+
+def span_origin_class():
+    """A user's own Origin subclass that can be measured: len() is the length of its span, so an empty span is falsy."""
+    if not _SPAN_CLS:
+        from dataclasses import dataclass
+
+        from pyoak.origin import CodeOrigin
+
+        @dataclass(frozen=True)
+        class SpanOrigin(CodeOrigin):
+            def __len__(self) -> int:
+                return self.position.end.index - self.position.start.index
+
+        _SPAN_CLS.append(SpanOrigin)
+    return _SPAN_CLS[0]
+
+
 def _source_file(i: int):
     """The file behind a file source: created once per machine under the temp dir (atomic rename), same content every time."""
     import os
@@ -166,6 +185,10 @@ def build_origin(spec: tuple, src=None) -> Any:
         from pyoak.origin import NO_SOURCE
 
         return CodeOrigin(NO_SOURCE, CodeRange(CodePoint(spec[1], 1, spec[1]), CodePoint(spec[2], 1, spec[2])))
+    if k == "span":
+        _, s_, a, b = spec
+        t = TEXTS[s_]
+        return span_origin_class()(source(s_), CodeRange(CodePoint(*point_for(t, a)), CodePoint(*point_for(t, b))))
     if k == "nsnp":
         from pyoak.origin import NO_POSITION, NO_SOURCE, Origin
 
@@ -198,6 +221,10 @@ def gen_origin(rng, allow_multi: bool = True, p_no: float = 0.4) -> tuple:
         # the NoSource singleton with a real position; a real origin object made of both placeholders; a plain origin whose
         # position is a set of positions (the same members in one order or the other: two different origins)
         s_ = rng.randrange(N_SOURCES)
+        if rng.random() < 0.4:
+            # an origin of a user's own (measurable) class: empty spans are falsy
+            a_ = rng.randrange(0, 4)
+            return ("span", s_, min(a_, len(TEXTS[s_])), min(a_ + rng.choice([0, 0, 2]), len(TEXTS[s_])))
         return rng.choice([("nsxml", "/a/b"), ("nsxml", "/c"), ("nscode", 1, 4), ("nscode", 0, 0), ("nsnp",), ("posset", s_, (0, 2), (3, 5)), ("posset", s_, (3, 5), (0, 2)), ("posset", s_, (0, 2), (0, 2), (3, 5))])
     if r < 0.6:
         return ("whole", rng.randrange(N_SOURCES))
@@ -209,7 +236,7 @@ def gen_origin(rng, allow_multi: bool = True, p_no: float = 0.4) -> tuple:
     members = []
     while len(members) < k:
         m = gen_origin(rng, allow_multi=False, p_no=0.0)
-        if m[0] in ("nsnp", "posset"):
+        if m[0] in ("nsnp", "posset", "span"):
             continue  # (kept out of multi origins: members are ordinary single-position origins)
         members.append(m)
     if rng.random() < 0.4:
@@ -237,6 +264,10 @@ def canon_spec(spec: tuple) -> tuple:
         return ("XMLFileOrigin", ("NoSource",), ("XMLPath", spec[1]))
     if k == "nscode":
         return ("CodeOrigin", ("NoSource",), ("CodeRange", (spec[1], 1, spec[1]), (spec[2], 1, spec[2])))
+    if k == "span":
+        _, s_, a, b = spec
+        t = TEXTS[s_]
+        return ("SpanOrigin", _canon_src_idx(s_), ("CodeRange", point_for(t, a), point_for(t, b)))
     if k == "nsnp":
         return ("Origin", ("NoSource",), ("NoPosition",))
     if k == "posset":
